@@ -1231,7 +1231,10 @@ Definition eval_case mt b := eval_case_ld mt b [].
 (** a pipeline fragment on one Context: pyimport steps and !py evaluations in any order.
     pypyr.steps.pyimport: the step's import statements build a namespace dict, which is merged into
     Context._pystring_globals with dict.update — a name imported again is re-bound (last wins). *)
-Inductive action := AImport (b : list stmt) | AEval (e : expr).
+Inductive action :=
+| AImport (b : list stmt)       (* a pypyr.steps.pyimport step *)
+| AEval (e : expr)              (* a !py string *)
+| ADrop (k : string).           (* the context loses key k (contextclear, pop, an in-arg going out of scope) *)
 
 Fixpoint run_session (mt : list (string * ns)) (b : ns) (acts : list action) (s : state)
   : option (list (res value) * state) :=
@@ -1242,6 +1245,7 @@ Fixpoint run_session (mt : list (string * ns)) (b : ns) (acts : list action) (s 
       | Some (stepns, ld) => run_session mt b r (set_loaded ld (set_imps (ns_update (imps s) stepns) s))
       | None => None
       end
+  | ADrop k :: r => run_session mt b r (set_ctx (ns_del k (ctx s)) s)
   | AEval e :: r =>
       match run_eval mt b e s with
       | (Unsup, _) => None
